@@ -381,6 +381,18 @@ def rule_f(ctx):
         p = d.split('.')
         if len(p) == 2 and p[1] in ('extend', 'append', 'insert', 'remove', 'pop', 'clear', 'sort') and p[0] not in ('self',):
           acc.add((p[0], k, call))
+    # `x += more` grows x in place as well
+    for k in g.nodes:
+      if k.kind == 'stmt' and isinstance(k.ast, ast.AugAssign) and isinstance(k.ast.op, ast.Add) \
+          and isinstance(k.ast.target, ast.Name) \
+          and not (isinstance(k.ast.value, ast.Constant) and isinstance(k.ast.value.value, (int, float))) \
+          and not any(isinstance(v, ast.Constant) and isinstance(v.value, (int, float)) and not isinstance(v.value, bool)
+                      for _, v in D.defs_of(m.node, k.ast.target.id) if v is not None):
+        fake = ast.Call(func=ast.Attribute(value=ast.Name(id=k.ast.target.id, ctx=ast.Load()), attr='extend', ctx=ast.Load()),
+                        args=[k.ast.value], keywords=[])
+        ast.copy_location(fake, k.ast)
+        ast.fix_missing_locations(fake)
+        acc.add((k.ast.target.id, k, fake))
     for var, k, call in sorted(acc, key=lambda x: x[2].lineno):
       if var in ('ids',):
         continue
@@ -393,6 +405,10 @@ def rule_f(ctx):
           continue
         fresh = isinstance(val, (ast.List, ast.ListComp, ast.Dict, ast.Set)) or (
             isinstance(val, ast.Call) and A.call_name(val) in ('list', 'set', 'dict', 'sorted'))
+        if isinstance(val, ast.Constant) and val.value is None:
+          continue      # placeholder, replaced before the growth (the other definitions are judged)
+        if isinstance(val, ast.BinOp) and isinstance(val.left, ast.Name) and val.left.id == var:
+          continue      # the modelled `x += ...` itself
         if not fresh:
           bad.append(f'`{A.unparse(val, 50)}` (line {dn.lineno})')
       ctx.ob('C14.f', f'{m.fq}#{var}.{A.call_name(call).split(".")[1]}', not bad,
@@ -440,6 +456,31 @@ def rule_g(ctx):
              f'as unconstrained positions and the offspring violates it')
   if n < 3:
     raise AnalysisError(f'only {n} operator functions consult distinct/sorted')
+  # Swap: the multi-choice whose `sorted` flag forbids the swap is the one whose
+  # sub-choices are exchanged and re-aligned (one spec expression for guard and action)
+  f = idx.func(E + 'mutators.Swap.mutate')
+  guard = {A.unparse(x.value) for x in ast.walk(f.node) if isinstance(x, ast.Attribute) and x.attr == 'sorted'}
+  action = {A.unparse(x.func.value) for x in ast.walk(f.node) if isinstance(x, ast.Call)
+            and isinstance(x.func, ast.Attribute) and x.func.attr == 'subchoice'}
+  def _resolve(txts):
+    out = set()
+    for t in txts:
+      try:
+        e = ast.parse(t, mode='eval').body
+      except SyntaxError:
+        out.add(t)
+        continue
+      if isinstance(e, ast.Name):
+        ds = [v for _, v in D.defs_of(f.node, e.id) if v is not None]
+        out |= {A.unparse(v) for v in ds} or {t}
+      else:
+        out.add(t)
+    return out
+  guard, action = _resolve(guard), _resolve(action)
+  ctx.ob('C14.g', f.fq + '#one-spec', bool(guard) and guard == action,
+         'the spec whose `sorted` flag forbids a swap is the spec whose sub-choices are exchanged and re-aligned',
+         f.loc, f'the guard consults {sorted(guard)} but the swap acts on {sorted(action)}: a sorted multi-choice reached '
+         f'through another spec is shuffled')
   for c in idx.all_classes():
     if not c.module.name.startswith(E) or 'select' not in c.methods:
       continue
